@@ -706,7 +706,13 @@ pub fn is_terminator_instruction(inst: &structs::Instruction) -> bool {
         ),
         Some(structs::Class::Branch) => !matches!(
             inst.opname.as_str(),
-            "OpPhi" | "OpLabel" | "OpSelectionMerge" | "OpLoopMerge"
+            "OpPhi"
+                | "OpLabel"
+                | "OpSelectionMerge"
+                | "OpLoopMerge"
+                | "OpLifetimeStart"
+                | "OpLifetimeStop"
+                | "OpDemoteToHelperInvocation"
         ),
         _ => false,
     }
